@@ -3,7 +3,7 @@ from harness.common import Case, hx, unhx, Fields
 from harness import gen as G
 from harness.props.c08 import param_validation  # noqa
 
-KINDS = 'ms'
+KINDS = 'gms'
 RULE = ('secrets across [1,n-1] plus the edge values 0, 1, n-1, n (as WIF, bytes and explicit exponent, and 0/empty arguments that must not '
         'silently yield a random key); WIF export/import compressed and uncompressed on mainnet/testnet/regtest/signet, every single-character '
         'corruption class of a WIF (substitution inside/outside the alphabet, deletion, other network version byte, bad checksum, wrong length); '
@@ -63,7 +63,7 @@ def cases(ctx):
         db = d.to_bytes(32, 'big')
         for net, c in [(rng.choice(NETS), rng.choice([0, 1])) for _ in range(3)]:
             ctx.count('wif-' + net)
-            yield Case(f'wif_enc {np(net)} {hx(db)} {c}', 'ms', nontrivial=net != 'testnet' or d in (1, N - 1) or d in framed, tag='wif',
+            yield Case(f'wif_enc {np(net)} {hx(db)} {c}', 'gms', nontrivial=net != 'testnet' or d in (1, N - 1) or d in framed, tag='wif',
                        spec=lambda ans, net=net, db=db, c=c: (f's:wif_spec {np(net)} {hx(db)} {c}', ans))
         yield Case(f'pub_of {hx(db)}', 'ms', nontrivial=d in lz or d in pre or d < 3 or d > N - 3, tag='pub',
                    spec=lambda ans, db=db: (f'secp_mul {hx(db)}', ans))
@@ -100,13 +100,13 @@ def cases(ctx):
         muts.append(('zero-key', base58check.b58encode(raw + hashlib.sha256(hashlib.sha256(raw).digest()).digest()[:4]).decode()))
         # the very same (just accepted) string after the configured network changed to one with another version byte
         onet = rng.choice([x for x in NETS if pfx(x) != pfx(net)])
-        yield Case(f'wif_dec {np(net)} {sh(wif)}', 'ms', nontrivial=True, tag='wifdec-valid-first',
+        yield Case(f'wif_dec {np(net)} {sh(wif)}', 'gms', nontrivial=True, tag='wifdec-valid-first',
                    spec=lambda ans, net=net, w=wif: (f's:wif_dec_spec {np(net)} {sh(w)}', ans))
-        yield Case(f'wif_dec {np(onet)} {sh(wif)}', 'ms', nontrivial=True, tag='wifdec-same-string-other-net',
+        yield Case(f'wif_dec {np(onet)} {sh(wif)}', 'gms', nontrivial=True, tag='wifdec-same-string-other-net',
                    spec=lambda ans, onet=onet, w=wif: (f's:wif_dec_spec {np(onet)} {sh(w)}', ans))
         for kind, w in muts:
             ctx.count('wifdec-' + kind)
-            yield Case(f'wif_dec {np(net)} {sh(w)}', 'ms', nontrivial=kind != 'valid', tag='wifdec-' + kind,
+            yield Case(f'wif_dec {np(net)} {sh(w)}', 'gms', nontrivial=kind != 'valid', tag='wifdec-' + kind,
                        spec=lambda ans, net=net, w=w: (f's:wif_dec_spec {np(net)} {sh(w)}', ans))
     # public-key parsing of arbitrary encodings
     for _ in range(ctx.n(60, 3000)):
